@@ -6,9 +6,32 @@ package main
 // reversed).
 
 import (
+	"encoding/binary"
+	"time"
+
 	"github.com/google/gopacket"
 	"github.com/scionproto/scion/pkg/slayers"
+	"golang.org/x/sys/unix"
+
+	"example.com/scion-time/net/scion"
 )
+
+// the control message SO_TIMESTAMPING delivers, as the SCION timestamp option
+// (type 253) carries it: form 1 = software stamp (first timespec), form 2 = raw
+// hardware stamp (third timespec)
+func tsOptData(form int, t time.Time) []byte {
+	b := make([]byte, unix.CmsgSpace(3*16))
+	binary.LittleEndian.PutUint64(b[0:], uint64(len(b)))
+	binary.LittleEndian.PutUint32(b[8:], uint32(unix.SOL_SOCKET))
+	binary.LittleEndian.PutUint32(b[12:], uint32(unix.SO_TIMESTAMPING_NEW))
+	o := unix.CmsgSpace(0)
+	if form == 2 {
+		o = unix.CmsgSpace(32)
+	}
+	binary.LittleEndian.PutUint64(b[o:], uint64(t.Unix()))
+	binary.LittleEndian.PutUint64(b[o+8:], uint64(t.Nanosecond()))
+	return b
+}
 
 func parseSCIONReq(raw []byte) (sl *slayers.SCION, ul *slayers.UDP, ok bool) {
 	defer func() {
@@ -35,7 +58,7 @@ func parseSCIONReq(raw []byte) (sl *slayers.SCION, ul *slayers.UDP, ok bool) {
 
 // a SCION/UDP packet answering the request reqRaw with the given UDP payload;
 // foreign: from another AS than the one the request went to
-func wrapSCION(reqRaw []byte, payload []byte, foreign bool) []byte {
+func wrapSCION(reqRaw []byte, payload []byte, foreign bool, tsForm int, ts time.Time) []byte {
 	sl, ul, ok := parseSCIONReq(reqRaw)
 	if !ok {
 		panic("c03: cannot parse the client's SCION request")
@@ -66,6 +89,16 @@ func wrapSCION(reqRaw []byte, payload []byte, foreign bool) []byte {
 		panic(err)
 	}
 	buffer.PushLayer(ul.LayerType())
+	if tsForm != 0 {
+		e2e := slayers.EndToEndExtn{}
+		e2e.NextHdr = slayers.L4UDP
+		e2e.Options = []*slayers.EndToEndOption{{OptType: scion.OptTypeTimestamp, OptData: tsOptData(tsForm, ts)}}
+		if err := e2e.SerializeTo(buffer, options); err != nil {
+			panic(err)
+		}
+		buffer.PushLayer(e2e.LayerType())
+		sl.NextHdr = slayers.End2EndClass
+	}
 	if err := sl.SerializeTo(buffer, options); err != nil {
 		panic(err)
 	}
